@@ -833,6 +833,24 @@ func (s *Server) IsRunning() bool {
 // data from the closing server.
 const srvClosedErr errors.Error = "server is closed"
 
+// aaaaDisabled returns true if the server is configured to respond to AAAA
+// requests with an empty answer.  It is safe for concurrent use.
+func (s *Server) aaaaDisabled() (ok bool) {
+	s.serverLock.RLock()
+	defer s.serverLock.RUnlock()
+
+	return s.conf.AAAADisabled
+}
+
+// dnssecEnabled returns true if the server is configured to request DNSSEC
+// data from the upstreams.  It is safe for concurrent use.
+func (s *Server) dnssecEnabled() (ok bool) {
+	s.serverLock.RLock()
+	defer s.serverLock.RUnlock()
+
+	return s.conf.EnableDNSSEC
+}
+
 // proxy returns a pointer to the current DNS proxy instance.  If p is nil, the
 // server is closing.
 //
